@@ -210,7 +210,7 @@ func c01BuildScenario(rnd *rand.Rand, profile string, idx int) *c01Scenario {
 		add(c01Ms(rnd, 1, 4), "ch500a", -1, 0, 1)
 		add(c01Ms(rnd, 3, 8), "cut", rnd.IntN(3), 0, 0)
 		add(c01Ms(rnd, 9, 13), "agent-restart", -1, 0, 0)
-		add(c01Ms(rnd, 17, 20), "chkillafter", perm[0], c01Ms(rnd, 2, 4), 1)
+		add(c01Ms(rnd, 14, 17), "chkillafter", perm[0], c01Ms(rnd, 2, 4), 1)
 		sc.SaveFirst = profile == "r-restart"
 		if profile == "t-restart" {
 			sc.TrafficSec = 50
@@ -292,7 +292,7 @@ func c01BuildScenario(rnd *rand.Rand, profile string, idx int) *c01Scenario {
 		}
 		add(c01Ms(rnd, 20, 24), "kill", rnd.IntN(3), c01Ms(rnd, 14, 17), 0) // long outage: spare failover
 		add(c01Ms(rnd, 4, 8), "sigint", perm[2], c01Ms(rnd, 0.5, 2), 0)     // graceful shutdown: requests received meanwhile are never answered
-		add(c01Ms(rnd, 2, 8), "ch500a", -1, 0, 1)
+		add(c01Ms(rnd, 0.5, 2), "ch500a", -1, 0, 1)
 		sc.Mandatory = []string{"failed-insert", "kill"}
 	case "t-late", "r-late":
 		sc.TrafficSec = 42
@@ -344,13 +344,14 @@ type c01Env struct {
 	logMu  sync.Mutex
 	logF   *os.File
 
-	replMu     sync.Mutex
+	replMu     [3]sync.Mutex // one per replica: guards procs[k], stopping[k] and a start in progress
+	statMu     sync.Mutex    // guards kills, replStarts, startFails
 	procs      [3]*c01Child
 	stopping   [3]*c01Child // replicas in graceful shutdown
 	kills      int
 	replStarts int
 	startFails []string
-	healedRepl bool
+	healedRepl atomic.Bool
 	bgWG       sync.WaitGroup // undo goroutines (restart replica, proxy up, end swallow)
 
 	agentMu   sync.RWMutex // write-locked while the agent is being replaced
@@ -477,7 +478,9 @@ func (e *c01Env) startReplicaLocked(k int) error {
 		}
 		if up {
 			e.procs[k] = c
+			e.statMu.Lock()
 			e.replStarts++
+			e.statMu.Unlock()
 			e.logf("replica %d up (pid %d)", k+1, c.cmd.Process.Pid)
 			return nil
 		}
@@ -485,7 +488,9 @@ func (e *c01Env) startReplicaLocked(k int) error {
 			c.kill()
 		}
 		lastErr = fmt.Errorf("replica %d did not come up (attempt %d): %s", k+1, attempt, c01Tail(e.aggLog(k), 5))
+		e.statMu.Lock()
 		e.startFails = append(e.startFails, lastErr.Error())
+		e.statMu.Unlock()
 		time.Sleep(500 * time.Millisecond)
 	}
 	return lastErr
@@ -509,15 +514,21 @@ func c01Tail(path string, n int) string {
 // killReplica SIGKILLs replica k now (synchronously) and restarts it after restartAfter
 // unless the scenario was healed in the meantime (heal starts everything itself).
 func (e *c01Env) killReplica(k int, restartAfter time.Duration, why string) {
-	e.replMu.Lock()
+	if !e.replMu[k].TryLock() { // being (re)started right now: the schedule never waits for that
+		e.obs.count("fault.skipped.replica_was_starting", 1)
+		return
+	}
 	c := e.procs[k]
 	if c == nil || !c.alive() {
-		e.replMu.Unlock()
+		e.replMu[k].Unlock()
+		e.obs.count("fault.skipped.replica_was_down", 1)
 		return
 	}
 	e.procs[k] = nil
+	e.replMu[k].Unlock()
+	e.statMu.Lock()
 	e.kills++
-	e.replMu.Unlock()
+	e.statMu.Unlock()
 	c.kill()
 	e.logf("replica %d killed (%s), restart in %v", k+1, why, restartAfter)
 	e.obs.count("fault.kill."+why, 1)
@@ -529,9 +540,9 @@ func (e *c01Env) killReplica(k int, restartAfter time.Duration, why string) {
 		case <-e.done:
 			return
 		}
-		e.replMu.Lock()
-		defer e.replMu.Unlock()
-		if e.healedRepl {
+		e.replMu[k].Lock()
+		defer e.replMu[k].Unlock()
+		if e.healedRepl.Load() {
 			return
 		}
 		if err := e.startReplicaLocked(k); err != nil {
@@ -544,15 +555,19 @@ func (e *c01Env) killReplica(k int, restartAfter time.Duration, why string) {
 // WaitInsertsFinish, RPC shutdown — long-polls received meanwhile are never answered) and
 // restarts it restartAfter after it exited.
 func (e *c01Env) stopReplica(k int, restartAfter time.Duration) {
-	e.replMu.Lock()
+	if !e.replMu[k].TryLock() {
+		e.obs.count("fault.skipped.replica_was_starting", 1)
+		return
+	}
 	c := e.procs[k]
 	if c == nil || !c.alive() {
-		e.replMu.Unlock()
+		e.replMu[k].Unlock()
+		e.obs.count("fault.skipped.replica_was_down", 1)
 		return
 	}
 	e.procs[k] = nil
 	e.stopping[k] = c
-	e.replMu.Unlock()
+	e.replMu[k].Unlock()
 	_ = c.cmd.Process.Signal(syscall.SIGINT)
 	e.obs.count("fault.sigint", 1)
 	e.logf("replica %d: SIGINT, restart %v after exit", k+1, restartAfter)
@@ -574,12 +589,12 @@ func (e *c01Env) stopReplica(k int, restartAfter time.Duration) {
 		case <-e.done:
 			return
 		}
-		e.replMu.Lock()
-		defer e.replMu.Unlock()
+		e.replMu[k].Lock()
+		defer e.replMu[k].Unlock()
 		if e.stopping[k] == c {
 			e.stopping[k] = nil
 		}
-		if e.healedRepl {
+		if e.healedRepl.Load() {
 			return
 		}
 		if err := e.startReplicaLocked(k); err != nil {
@@ -871,25 +886,22 @@ func c01RunScenario(r *verifkit.Run, aggBin string, sc *c01Scenario, rnd *rand.R
 	}
 	defer func() { // replicas die with the scenario, whatever happens
 		close(e.done)
-		e.replMu.Lock()
-		e.healedRepl = true
-		for k := range e.procs {
-			if e.procs[k] != nil {
-				e.procs[k].kill()
-			}
-			if c := e.stopping[k]; c != nil && c.alive() {
-				c.kill()
+		e.healedRepl.Store(true)
+		killAll := func() {
+			for k := range e.procs {
+				e.replMu[k].Lock()
+				if c := e.procs[k]; c != nil && c.alive() {
+					c.kill()
+				}
+				if c := e.stopping[k]; c != nil && c.alive() {
+					c.kill()
+				}
+				e.replMu[k].Unlock()
 			}
 		}
-		e.replMu.Unlock()
+		killAll()
 		e.bgWG.Wait()
-		e.replMu.Lock()
-		for k := range e.procs {
-			if e.procs[k] != nil && e.procs[k].alive() {
-				e.procs[k].kill()
-			}
-		}
-		e.replMu.Unlock()
+		killAll()
 	}()
 	e.t0 = time.Now() // provisional, for log offsets during start-up
 	e.ch.t0 = e.t0
@@ -900,9 +912,9 @@ func c01RunScenario(r *verifkit.Run, aggBin string, sc *c01Scenario, rnd *rand.R
 			wg.Add(1)
 			go func(k int) {
 				defer wg.Done()
-				e.replMu.Lock() // serialises, but start-up is dominated by the child anyway
+				e.replMu[k].Lock()
 				errs[k] = e.startReplicaLocked(k)
-				e.replMu.Unlock()
+				e.replMu[k].Unlock()
 			}(k)
 		}
 		wg.Wait()
@@ -1013,23 +1025,34 @@ func c01RunScenario(r *verifkit.Run, aggBin string, sc *c01Scenario, rnd *rand.R
 	for k := 0; k < 3; k++ {
 		e.prox[k].heal()
 	}
-	e.replMu.Lock()
-	e.healedRepl = true
-	for k := 0; k < 3; k++ {
-		if c := e.stopping[k]; c != nil && c.alive() {
-			c.kill() // a graceful shutdown still in progress when faults stop is cut short
-			e.obs.count("fault.sigint.cut_short_by_heal", 1)
+	e.healedRepl.Store(true)
+	{
+		var hwg sync.WaitGroup
+		herrs := make([]error, 3)
+		for k := 0; k < 3; k++ {
+			hwg.Add(1)
+			go func(k int) {
+				defer hwg.Done()
+				e.replMu[k].Lock() // waits for a restart that is in progress
+				defer e.replMu[k].Unlock()
+				if c := e.stopping[k]; c != nil && c.alive() {
+					c.kill() // a graceful shutdown still in progress when faults stop is cut short
+					e.obs.count("fault.sigint.cut_short_by_heal", 1)
+				}
+				e.stopping[k] = nil
+				herrs[k] = e.startReplicaLocked(k)
+			}(k)
 		}
-		e.stopping[k] = nil
-		if err := e.startReplicaLocked(k); err != nil {
-			e.replMu.Unlock()
-			infra(fmt.Errorf("heal: %v", err))
-			close(stopSnap)
-			wg.Wait()
-			return
+		hwg.Wait()
+		for _, err := range herrs {
+			if err != nil {
+				infra(fmt.Errorf("heal: %v", err))
+				close(stopSnap)
+				wg.Wait()
+				return
+			}
 		}
 	}
-	e.replMu.Unlock()
 	healed := time.Now()
 	e.obs.healedMs = e.ms()
 	e.logf("healed")
